@@ -61,7 +61,6 @@ func diverge(f string, a ...any) {
 
 func next(label, kind string) rv {
 	mu.Lock()
-	defer mu.Unlock()
 	for pos < len(rf.Nondet) && used[pos] {
 		pos++
 	}
@@ -71,11 +70,13 @@ func next(label, kind string) rv {
 	}
 	r := rf.Nondet[pos]
 	if r.Label != label || r.Kind != kind {
+		p := pos
 		mu.Unlock()
-		diverge("replay vector mismatch at %d: have %s(%s), harness asks %s(%s)", pos, r.Kind, r.Label, kind, label)
+		diverge("replay vector mismatch at %d: have %s(%s), harness asks %s(%s)", p, r.Kind, r.Label, kind, label)
 	}
 	used[pos] = true
 	pos++
+	mu.Unlock()
 	return r
 }
 
